@@ -135,6 +135,32 @@ pub fn run(ctx: &Ctx) -> i32 {
                 let legacy = ChunkSpec::OldPalette { kind, packets };
                 let newc = new_palette_chunk(&mut rng, &pal);
                 let before = rng.chance(1, 2);
+                if sp.durations.len() > 1 && rng.chance(1, 3) {
+                    // the legacy chunk opens a later frame; the new-format palette of frame 0 must still win
+                    let mut o = opts.clone();
+                    o.palette_probe = pal.keys().cloned().collect();
+                    let mut spec = compile_with(&sp, &mut rng, &Variation::none(), &PaletteProgram::Chunks(vec![newc.clone()]));
+                    let f = 1 + rng.usize_below(spec.frames.len() - 1);
+                    let next_is_ud = matches!(spec.frames[f].chunks.first().map(|c| &c.spec), Some(ChunkSpec::UserData(_)));
+                    if !next_is_ud && !spec.frames[f].chunks.is_empty() {
+                        spec.frames[f].chunks.insert(0, legacy.clone().into());
+                        res.outcomes.push("precedence:legacy-in-later-frame".into());
+                        res.feature = gen::features(&sp) ^ 0x1a7e;
+                        let bytes = encode(&spec).0;
+                        match load(&bytes) {
+                            Err(e) => res.violations.push(Violation::new(format!("load-failed|precedence-later-frame|{}", err_sig(&e)), format!("sprite with a redundant legacy palette in frame {} failed to load: {}", f, e)).with_input(&bytes)),
+                            Ok(ase) => {
+                                let obs = crate::observe::observe(&ase, &o);
+                                let exp = crate::expect::expect(&sp, &o);
+                                res.leaves += exp.leaves();
+                                if let Some(d) = crate::val::diff(&obs, &exp) {
+                                    res.violations.push(Violation::new(format!("mismatch|precedence-later-frame|{}", normalise_digits(&d.path)), format!("legacy palette chunk in frame {} changed the result: {}", f, d)).with_input(&bytes));
+                                }
+                            }
+                        }
+                        return res;
+                    }
+                }
                 let chunks = if before { vec![legacy, newc] } else { vec![newc, legacy] };
                 res.outcomes.push(format!("precedence:{}", if before { "legacy-first" } else { "new-first" }));
                 res.feature = gen::features(&sp) ^ before as u64;
